@@ -89,7 +89,7 @@ pub unsafe fn all_bytes_zero<T>(p: *const T) -> bool {
 /// Uninterpreted function u64 -> u64 (Ackermann table with a concrete call counter): equal arguments give
 /// equal results, otherwise unconstrained.  Stands for "any pure block function" in dispatch / frame obligations.
 pub mod uf {
-    pub const MAXC: usize = 24;
+    pub const MAXC: usize = 96;
     pub static mut IN: [u64; MAXC] = [0; MAXC];
     pub static mut OUT: [u64; MAXC] = [0; MAXC];
     pub static mut N: usize = 0;
